@@ -190,6 +190,7 @@ func checkC12(c *Ctx) {
 		}
 	}
 	R.count("selfalias_store_sites", nSA)
+	R.Explain += " (C12.selfalias) an owner never writes its receiver's store on a loop that still reads the same store of another, not freshly built value (the other value can be the receiver itself)."
 	R.min("C12.owner", 15)
 	R.count("backing_store_writers", nW)
 
